@@ -21,6 +21,10 @@
 //	multi    general JSON serialisation with several signatures / recipients
 //	jwk      JSON codec, coordinate widths, RFC 7638 thumbprints
 //	acme     signContent / getKeyAuthorization (in-package export, -tags verif)
+//	msig     1-3 signatures x header layouts (jwk, kid, nonce) x compact /
+//	         flattened / general JSON, library- and reference-built: every
+//	         single-bit flip of every field, decoded octets and base64url text
+//	         (multisig.go)
 package main
 
 import (
@@ -1516,7 +1520,7 @@ var jweSers = []string{"compact", "json+aad", "json", "json+aad0"}
 
 func run(c *hl.Ctx) {
 	initKeys()
-	c.Rule("Matrix, exhaustive: every (signature alg x key variant x payload size x serialisation) and every (key-management alg [x curve x key variant] x content encryption x zip x plaintext size x serialisation) is signed/encrypted, serialised, parsed and verified/decrypted once, also with a different key of the same kind and a key of another kind, and re-checked by an independent RFC 7515/7516/7518 implementation; reference-built objects go the other way. Fault enumeration: for every object at the tamper sizes, each octet-string field (protected, payload/ciphertext, iv, tag, encrypted_key, signature, aad) is base64url-decoded, one bit is flipped, the field re-encoded and the object re-assembled, parsed and verified/decrypted with the right key (thorough: every bit of every field of every object at the tamper sizes, the 256-octet plaintext only uncompressed and compact; quick: every bit for every signed object except ES384/ES512 and for one designated encrypted combination per (alg family x enc family); for the rest the first and last bit of every octet of fields up to 64 octets and of the first 32, last 32 and every 8th octet of longer fields, key variant 0 only, DEF only with the compact serialisation, and for recipients that are not the first of their family only A192CBC-HS384 and A256GCM without compression). One evaluation = one matrix cell or one flipped object. Non-trivial = a matrix cell whose object round-tripped to exactly the payload and passed the reference, or a flipped object that the parser still accepted, so that rejection had to come from the cryptographic check (flips the parser rejects are counted separately as tamper_rejected_by_parser). Distinctness key = (part, alg, curve, key, enc, zip, size, serialisation[, field, bit]).")
+	c.Rule("Matrix, exhaustive: every (signature alg x key variant x payload size x serialisation) and every (key-management alg [x curve x key variant] x content encryption x zip x plaintext size x serialisation) is signed/encrypted, serialised, parsed and verified/decrypted once, also with a different key of the same kind and a key of another kind, and re-checked by an independent RFC 7515/7516/7518 implementation; reference-built objects go the other way. Fault enumeration: for every object at the tamper sizes, each octet-string field (protected, payload/ciphertext, iv, tag, encrypted_key, signature, aad) is base64url-decoded, one bit is flipped, the field re-encoded and the object re-assembled, parsed and verified/decrypted with the right key (thorough: every bit of every field of every object at the tamper sizes, the 256-octet plaintext only uncompressed and compact; quick: every bit for every signed object except ES384/ES512 and for one designated encrypted combination per (alg family x enc family); for the rest the first and last bit of every octet of fields up to 64 octets and of the first 32, last 32 and every 8th octet of longer fields, key variant 0 only, DEF only with the compact serialisation, and for recipients that are not the first of their family only A192CBC-HS384 and A256GCM without compression). One evaluation = one matrix cell or one flipped object. Non-trivial = a matrix cell whose object round-tripped to exactly the payload and passed the reference, or a flipped object that the parser still accepted, so that rejection had to come from the cryptographic check (flips the parser rejects are counted separately as tamper_rejected_by_parser). Distinctness key = (part, alg, curve, key, enc, zip, size, serialisation[, field, bit])." + msigRule)
 	c.Assume("Go standard library primitives (AES, SHA-2, HMAC, RSA, ECDSA, GCM, DEFLATE, math/big) are correct",
 		"ECDSA, PSS, OAEP, CEK, IV and ephemeral-key randomness comes from crypto/rand and is not pinned: oracles are round trip and rejection, never byte equality of randomised output; one object per matrix cell",
 		"the reference (verif/ref/joseref) passes the RFC 7518 B.1-B.3, RFC 3394 4.1/4.6 and RFC 7518 appendix C vectors (go test ./ref/joseref)",
@@ -1732,6 +1736,10 @@ func run(c *hl.Ctx) {
 		}
 	}
 
+	// ---- msig: 1-3 signatures x header layouts x all serialisations, every bit of
+	// every field at octet and text level (multisig.go)
+	runMsigAll(c, mine)
+
 	if c.Mine(1) {
 		c.Sample(map[string]interface{}{"part": "jwk", "key": "P-521 d=" + fmt.Sprint(keys.ec[521][0].d), "json": func() string {
 			b, _ := (&jose.JsonWebKey{Key: &keys.ec[521][0].priv.PublicKey}).MarshalJSON()
@@ -1771,6 +1779,10 @@ func replay(c *hl.Ctx, raw json.RawMessage) {
 	var cs caseT
 	if err := json.Unmarshal(raw, &cs); err != nil {
 		panic(err)
+	}
+	if cs.Part == "msig" {
+		replayMsig(c, raw)
+		return
 	}
 	obj := cs.Object
 	switch cs.Part {
